@@ -5,7 +5,7 @@ from harness import dtwgen
 
 COQ_FILES = ["theories/BandTie.v", "theories/PyWps.v", "theories/PyWpsProofs.v", "gen/Gen_cfill.v", "gen/Gen_cexpand.v",
              "theories/CFill.v", "theories/CExpand.v", "theories/CFillSim.v", "gen/Gen_pywps.v", "theories/PyWpsGen.v",
-             "gen/Gen_cwpsk.v", "theories/CWpsCanon.v", "theories/CWpsKernel.v", "theories/CWpsTie.v", "theories/CWpsValue.v", "theories/CWpsSpec.v", "theories/CWpsFinal.v", "props/C04.v"]
+             "gen/Gen_cwpsk.v", "theories/CWpsCanon.v", "theories/CWpsKernel.v", "theories/CWpsTie.v", "theories/CWpsCanonEu.v", "theories/CWpsValue.v", "theories/CWpsSpec.v", "theories/CWpsTieEu.v", "theories/CWpsSpecEu.v", "theories/CWpsFinal.v", "props/C04.v"]
 THEOREMS = [("DVProps.C04", "C04_cell_lower_bound"), ("DVProps.C04", "C04_cell_attained"),
             ("DVProps.C04", "C04_matrix_shape"), ("DVProps.C04", "C04_out_of_band_inf"),
             ("DVProps.C04", "C04_code_matrix_is_spec"), ("DVProps.C04", "C04_code_matrix_with_bound"),
@@ -14,7 +14,8 @@ THEOREMS = [("DVProps.C04", "C04_cell_lower_bound"), ("DVProps.C04", "C04_cell_a
             ("DVProps.C04", "C04_c_fill_rows_store_the_matrix"), ("DVProps.C04", "C04_py_warping_paths_fill_as_written"),
             ("DVProps.C04", "C04_py_warping_paths_fill_as_written_with_bound"),
             ("DVProps.C04", "C04_c_wps_kernel_as_written"),
-            ("DVProps.C04", "C04_c_wps_kernel_returns_the_dtw_value")]
+            ("DVProps.C04", "C04_c_wps_kernel_returns_the_dtw_value"),
+            ("DVProps.C04", "C04_c_wps_euclidean_kernel_as_written")]
 TRUSTED_BASE = [
     "Coq 8.16.1 kernel (no native_compute)",
     "tools/translate_py.py (band expressions of dtw.warping_paths regenerated into coq/gen/Gen_dtw.v)",
@@ -34,8 +35,8 @@ TRUSTED_BASE = [
     "specification matrix the layout assigns to it, every access in range (C04_c_wps_kernel_as_written; the DTWWps "
     "members are the regenerated dtw_wps_parts expressions, max_step / penalty as dtw_wps_parts squares them) and to "
     "return the DTW value of the specification, by the corner read or the two end-of-series scans, with the sqrt pass "
-    "when asked (C04_c_wps_kernel_returns_the_dtw_value); the "
-    "Euclidean twin, the bounded run (pruning by max_dist) and the -1 marks of the kernels are "
+    "when asked (C04_c_wps_kernel_returns_the_dtw_value); the same for the Euclidean twin "
+    "(C04_c_wps_euclidean_kernel_as_written); the bounded run (pruning by max_dist) and the -1 marks of the kernels are "
     "regenerated too and tied by correspondence (site c.wpsk: extracted regenerated kernels vs the compiled ones, "
     "cell by cell); dtw_expand_wps and the Python-side unpacking stay hand-modelled and tied by correspondence",
     "binary64 arithmetic exact on the integer-valued stream; sqrt correctly rounded",
